@@ -8,12 +8,15 @@ import sys
 from kv import VERIF, REPO
 
 
+REPLAY_DIR = os.environ.get("VERIF_REPLAY_DIR", os.path.join(VERIF, "replay"))
+
+
 def safe(s):
     return re.sub(r"[^A-Za-z0-9_.-]+", "_", s)[:120]
 
 
 def write_replay(prop, unit, r, f, tier):
-    path = os.path.join(VERIF, "replay", f"{prop}-{safe(unit)}-{safe(f['obligation'])}.json")
+    path = os.path.join(REPLAY_DIR, f"{prop}-{safe(unit)}-{safe(f['obligation'])}.json")
     doc = {
         "property": prop,
         "unit": unit,
